@@ -457,3 +457,19 @@ class Analysis:
         sp = v.get("span") or {}
         s = sp.get("callsite") or sp.get("s") or ""
         return s.split(": ")[0] if ": " in s else s
+
+
+def forced_analysis(A, body, overrides, cfgd=None, args=None, state=None):
+    """Analyse `body` stand-alone with some callee models replaced (the A1 equivalent of 'assume this call
+    returns X').  overrides: {callee def-path or generic path: model function}.  Returns (Interp, frame, exit state, collect)."""
+    from interp import Interp, Config
+    cfgd = cfgd or {}
+    cfg = Config(label=cfgd.get("label", "FORCED"), opaque=cfgd.get("opaque", ()), cell_init=cfgd.get("cell_init"),
+                 drain_kinds=cfgd.get("drain_kinds"), self_init=cfgd.get("self_init"))
+    cfg.default_states = cfgd.get("default_states")
+    I = Interp(A.facts, A.uni, A.layout, cfg)
+    I.models = dict(I.models)
+    for k, f in overrides.items():
+        I.models[k] = f
+    fr, out, col = I.analyze(body, args=args, state=state)
+    return I, fr, out, col
